@@ -2400,6 +2400,222 @@ def dyn_judge(ctx, dprogs, results):
                          "c01k_dynamic_slice_nd_start_vectors": pts})
 
 
+# ------------------------------------------------------------------------------------------------ (i) float kernels on special values
+# Float kernels that involve NO rounding (neg, abs, sign, copysign, max / min / clip, comparisons, where, isnan / isinf / isfinite,
+# floor / ceil / round / trunc, relu, fmax / fmin, ...) on the special-value grid {NaN, +-inf, +-0, +-1, +-0.5, +-1.5, +-2.5,
+# +-tiny, +-huge} (all pairs for binary kernels), compared BIT FOR BIT including the sign of zero and NaN-ness.
+#   REFERENCE = the exported graph evaluated by _fref below: the ONNX operator specifications on float32, with IEEE 754-2019
+#   maximum / minimum for Max / Min / Relu / Clip (NaN propagates, +0 > -0: the corner the ONNX text leaves open) and an exact
+#   select for Where.  A kernel is VIOLATED when REFERENCE(export) differs from eager JAX (or the export is not loadable).
+#   onnxruntime is tied to the reference per operator and per kernel; its measured deviations (Where drops the sign of a -0.0
+#   taken from the TRUE branch, Max / Min return the second operand on a +-0 tie, Relu(-0.0) = -0.0) are recorded, must be
+#   explained by FLOAT_ORT_DEVIATIONS (fail closed) and are NOT findings about the converter.
+# Kernels whose JAX value depends on XLA's flush-to-zero of subnormals (mul, reciprocal, leaky_relu, elu, nextafter) are out.
+FLOAT_ORT_DEVIATIONS = {"Where", "Max", "Min", "Relu", "Clip"}
+
+
+def _ieee_max(a, b, mx=True):
+    a, b = np.broadcast_arrays(np.asarray(a, np.float32), np.asarray(b, np.float32))
+    out = np.where(a > b, a, b) if mx else np.where(a < b, a, b)
+    both0 = (a == 0) & (b == 0)
+    sgn = (np.signbit(a) & np.signbit(b)) if mx else (np.signbit(a) | np.signbit(b))
+    out = np.where(both0, np.where(sgn, np.float32(-0.0), np.float32(0.0)), out)
+    return np.where(np.isnan(a) | np.isnan(b), np.float32(np.nan), out).astype(np.float32)
+
+
+def _fref(model, feeds):
+    """the exported graph under the ONNX operator specifications (float32 / bool / int64); Unrecognised on anything else"""
+    from onnx import numpy_helper
+    env = {i.name: numpy_helper.to_array(i) for i in model.graph.initializer}
+    env.update(feeds)
+    cmp_ = {"Equal": np.equal, "Less": np.less, "LessOrEqual": np.less_equal, "Greater": np.greater, "GreaterOrEqual": np.greater_equal}
+    with np.errstate(all="ignore"):
+        for n in model.graph.node:
+            x = [env[i_] for i_ in n.input if i_ != ""]
+            op = n.op_type
+            if op == "Neg":
+                r = np.negative(x[0])
+            elif op == "Abs":
+                r = np.abs(x[0])
+            elif op == "Sign":
+                r = np.where(np.isnan(x[0]), x[0], np.where(x[0] > 0, 1, np.where(x[0] < 0, -1, 0))).astype(x[0].dtype)
+            elif op in ("Floor", "Ceil"):
+                r = (np.floor if op == "Floor" else np.ceil)(x[0])
+            elif op == "Round":
+                r = np.rint(x[0])
+            elif op in ("Max", "Min"):
+                r = x[0]
+                for y in x[1:]:
+                    r = _ieee_max(r, y, op == "Max")
+            elif op == "Relu":
+                r = _ieee_max(x[0], np.float32(0.0), True)
+            elif op == "Clip":
+                r = x[0]
+                if len(x) > 1:
+                    r = _ieee_max(r, x[1], True)
+                if len(x) > 2:
+                    r = _ieee_max(r, x[2], False)
+            elif op == "Where":
+                r = np.where(x[0], x[1], x[2])
+            elif op in cmp_:
+                r = cmp_[op](x[0], x[1])
+            elif op == "Not":
+                r = np.logical_not(x[0])
+            elif op in ("And", "Or", "Xor"):
+                r = {"And": np.logical_and, "Or": np.logical_or, "Xor": np.logical_xor}[op](x[0], x[1])
+            elif op == "IsNaN":
+                r = np.isnan(x[0])
+            elif op == "IsInf":
+                r = (np.isposinf(x[0]) & bool(_attr(n, "detect_positive", 1))) | (np.isneginf(x[0]) & bool(_attr(n, "detect_negative", 1)))
+            elif op in ("Add", "Sub", "Mul", "Div"):
+                r = {"Add": np.add, "Sub": np.subtract, "Mul": np.multiply, "Div": np.divide}[op](x[0], x[1])
+            elif op == "Reciprocal":
+                r = np.float32(1.0) / x[0]
+            elif op == "Identity":
+                r = x[0]
+            elif op == "Cast":
+                to = CODE_NAME.get(int(_attr(n, "to")))
+                if to is None:
+                    raise Unrecognised(f"Cast to {_attr(n, 'to')}")
+                r = (x[0] != 0) if to == "bool" else x[0].astype(to)
+            else:
+                raise Unrecognised(f"operator {op}")
+            env[n.output[0]] = np.asarray(r)
+    return env[model.graph.output[0].name]
+
+
+def _fsame(a, b):
+    a, b = np.asarray(a), np.asarray(b)
+    if a.shape != b.shape or a.dtype != b.dtype:
+        return np.zeros(max(a.size, 1), bool)
+    if a.dtype.kind == "f":
+        return ((np.isnan(a) & np.isnan(b)) | ((a == b) & (np.signbit(a) == np.signbit(b)))).reshape(-1)
+    return (a == b).reshape(-1)
+
+
+class FProg:
+    def __init__(self, pid, nargs, fn):
+        self.id, self.nargs, self.fn = pid, nargs, fn
+        self.jax = self.model = self.err = self.ort = self.cols = None
+
+
+def float_grid():
+    f32 = np.float32
+    tiny, huge = np.finfo(f32).tiny, np.finfo(f32).max
+    return np.array([np.nan, np.inf, -np.inf, 0.0, -0.0, 1.0, -1.0, 0.5, -0.5, tiny, -tiny, huge, -huge, 1.5, -1.5, 2.5, -2.5], dtype=f32)
+
+
+def float_programs(tier):
+    import jax
+    import jax.numpy as jnp
+    from jax import lax
+    f32 = np.float32
+    U = {"neg": lambda x: -x, "abs": lambda x: jnp.abs(x), "sign": lambda x: jnp.sign(x), "lax_sign": lambda x: lax.sign(x),
+         "floor": lambda x: jnp.floor(x), "ceil": lambda x: jnp.ceil(x), "round": lambda x: jnp.round(x), "trunc": lambda x: jnp.trunc(x),
+         "isnan": lambda x: jnp.isnan(x), "isinf": lambda x: jnp.isinf(x), "isfinite": lambda x: jnp.isfinite(x),
+         "relu": lambda x: jax.nn.relu(x), "relu6": lambda x: jax.nn.relu6(x), "nan_to_num": lambda x: jnp.nan_to_num(x),
+         "clip_const": lambda x: jnp.clip(x, -1.0, 1.0), "clamp_lo_gt_hi": lambda x: lax.clamp(f32(1), x, f32(-1)),
+         "signbit": lambda x: jnp.signbit(x)}
+    B = {"maximum": lambda a, b: jnp.maximum(a, b), "minimum": lambda a, b: jnp.minimum(a, b), "lax_max": lambda a, b: lax.max(a, b),
+         "copysign": lambda a, b: jnp.copysign(a, b), "fmax": lambda a, b: jnp.fmax(a, b), "fmin": lambda a, b: jnp.fmin(a, b),
+         "eq": lambda a, b: a == b, "ne": lambda a, b: a != b, "lt": lambda a, b: a < b, "le": lambda a, b: a <= b,
+         "gt": lambda a, b: a > b, "ge": lambda a, b: a >= b, "where_gt": lambda a, b: jnp.where(a > b, a, b),
+         "heaviside": lambda a, b: jnp.heaviside(a, b)}
+    T = {"clamp3": lambda lo, x, hi: lax.clamp(lo, x, hi), "clip3": lambda x, lo, hi: jnp.clip(x, lo, hi)}
+    P = [FProg(k_, 1, f_) for k_, f_ in U.items()] + [FProg(k_, 2, f_) for k_, f_ in B.items()]
+    if tier != "quick":
+        P += [FProg(k_, 3, f_) for k_, f_ in T.items()]
+    V = float_grid()
+    for fp in P:
+        if fp.nargs == 1:
+            fp.cols = [V]
+        elif fp.nargs == 2:
+            fp.cols = [np.repeat(V, len(V)), np.tile(V, len(V))]
+        else:
+            W = V[:9]
+            fp.cols = [np.repeat(W, len(W) * len(W)), np.tile(np.repeat(W, len(W)), len(W)), np.tile(W, len(W) * len(W))]
+    return P
+
+
+def float_d1(ctx):
+    """onnxruntime against the reference, operator by operator, on the grid: deviations outside FLOAT_ORT_DEVIATIONS fail"""
+    from onnx import helper, TensorProto as TP
+    V = float_grid()
+    a, b = np.repeat(V, len(V)), np.tile(V, len(V))
+    specs = [("Neg", [V], {}), ("Abs", [V], {}), ("Sign", [V], {}), ("Floor", [V], {}), ("Ceil", [V], {}), ("Round", [V], {}), ("Relu", [V], {}),
+             ("IsNaN", [V], {}), ("IsInf", [V], {}), ("Max", [a, b], {}), ("Min", [a, b], {}), ("Equal", [a, b], {}), ("Less", [a, b], {}),
+             ("LessOrEqual", [a, b], {}), ("Greater", [a, b], {}), ("GreaterOrEqual", [a, b], {}),
+             ("Where", [a > 0, a, b], {}), ("Where", [~(a > 0), b, a], {})]
+    dev, unexpected = {}, []
+    for op, ins, attrs in specs:
+        vi = [helper.make_tensor_value_info(f"i{k_}", TP.BOOL if x_.dtype == np.bool_ else TP.FLOAT, list(x_.shape)) for k_, x_ in enumerate(ins)]
+        g = helper.make_graph([helper.make_node(op, [v_.name for v_ in vi], ["o"], **attrs)], "g", vi, [helper.make_empty_tensor_value_info("o")])
+        m = helper.make_model(g, opset_imports=[helper.make_opsetid("", OPSET)])
+        m.ir_version = 10
+        feeds = {f"i{k_}": x_ for k_, x_ in enumerate(ins)}
+        try:
+            got = _ort_run(m, feeds)
+        except Exception as e:  # noqa: BLE001
+            unexpected.append(f"{op}: onnxruntime {str(e)[:100]}")
+            continue
+        bad = np.nonzero(~_fsame(_fref(m, feeds), got))[0]
+        if len(bad):
+            i_ = int(bad[0])
+            dev.setdefault(op, f"{len(bad)} points, e.g. inputs {[float(x_[i_]) for x_ in ins]}: onnxruntime {float(np.asarray(got).reshape(-1)[i_])!r}, "
+                               f"specification {float(np.asarray(_fref(m, feeds)).reshape(-1)[i_])!r}")
+            if op not in FLOAT_ORT_DEVIATIONS:
+                unexpected.append(f"{op}: {dev[op]}")
+    ctx.oblige(f"tieD1-float:onnx-operator-specifications-equal-onnxruntime-up-to-recorded-deviations({len(specs)} one-op models)",
+               not unexpected, "tie", "; ".join(unexpected[:4]))
+    ctx.coverage["c01k_float_onnxruntime_deviations"] = dev
+
+
+def float_judge(ctx, fprogs):
+    n_ok = pts = n_dev = 0
+    for fp in fprogs:
+        desc = f"float32 kernel {fp.id}"
+        if fp.model is None or fp.jax is None:
+            ctx.oblige(f"float:{fp.id}", False, "tie", f"{desc}: {fp.err}")
+            continue
+        feeds = dict(zip([i.name for i in fp.model.graph.input], fp.cols))
+        ops = sorted({n.op_type for n in fp.model.graph.node})
+        st, val = fp.ort if fp.ort is not None else ("err", "not run")
+        try:
+            ref = _fref(fp.model, feeds)
+        except Unrecognised as e:
+            if st != "ran":
+                ctx.violate(f"float:{fp.id}:onnx-invalid",
+                            f"{desc}: the exported model is rejected by onnxruntime ({str(val)[:200]}) and uses {e}; nodes {structure(fp.model)[:6]}",
+                            {"kind": "float", "id": fp.id, "input": [float(c_[0]) for c_ in fp.cols]})
+            else:
+                ctx.oblige(f"float:{fp.id}", False, "tie", f"{desc}: the reference evaluator does not know {e}")
+            continue
+        bad = np.nonzero(~_fsame(ref, fp.jax))[0]
+        pts += len(fp.cols[0])
+        if len(bad):
+            i_ = int(bad[0])
+            rj, rr = np.asarray(fp.jax).reshape(-1), np.asarray(ref).reshape(-1)
+            ctx.violate(f"float:{fp.id}:value-mismatch",
+                        f"{desc}: inputs {[float(c_[i_]) for c_ in fp.cols]}: the exported graph {ops} gives {float(rr[i_])!r} under the ONNX "
+                        f"operator specifications" + (f" (onnxruntime: {float(np.asarray(val[0]).reshape(-1)[i_])!r})" if st == "ran" else "")
+                        + f", eager JAX gives {float(rj[i_])!r} ({len(bad)} of {len(rj)} grid points differ); nodes {structure(fp.model)[:8]}",
+                        {"kind": "float", "id": fp.id, "input": [float(c_[i_]) for c_ in fp.cols], "reference": float(rr[i_]), "jax": float(rj[i_])})
+            continue
+        n_ok += 1
+        if st == "ran":
+            badr = np.nonzero(~_fsame(ref, val[0]))[0]
+            if len(badr):
+                n_dev += 1
+                ctx.oblige(f"float-onnxruntime:{fp.id}", bool(set(ops) & FLOAT_ORT_DEVIATIONS), "tie",
+                           f"{desc}: onnxruntime differs from the operator specifications on {len(badr)} grid points although the graph {ops} "
+                           f"contains no operator with a recorded deviation")
+        elif not (st == "err" and "NOT_IMPLEMENTED" in str(val)):
+            ctx.violate(f"float:{fp.id}:onnx-invalid", f"{desc}: onnxruntime: {str(val)[:300]}; nodes {structure(fp.model)[:6]}",
+                        {"kind": "float", "id": fp.id, "input": [float(c_[0]) for c_ in fp.cols]})
+    ctx.coverage.update({"c01k_float_special_value_kernels": len(fprogs), "c01k_float_kernels_equal_to_jax_under_onnx_specification": n_ok,
+                         "c01k_float_kernels_where_onnxruntime_deviates": n_dev, "c01k_float_grid_points": pts})
+
+
 # ------------------------------------------------------------------------------------------------ inventory of jax.numpy plugins
 # Every plugin registered under jax.numpy.* must be classified: PROVED (its integer lowering is a kernel of this check: tied
 # by tie S, proved, searched) or NOT_EXACT (explicitly outside the exact fragment, with the reason).  A plugin in neither
@@ -2524,6 +2740,7 @@ def run(ctx):
         pg.fills = prog_fills(pg, rng, 4 if tier == "quick" else 10)
     xprogs = explored_programs(tier)
     dprogs = dyn_programs(tier)
+    fprogs = float_programs(tier)
     sprogs = struct_corpus(tier)
     for sp in sprogs:
         sp.fills = sprog_fills(sp, rng, sp.small + (3 if tier == "quick" else 8))
@@ -2549,6 +2766,12 @@ def run(ctx):
                 except Exception as e:  # noqa: BLE001
                     pg.err = f"eager JAX: {type(e).__name__}: {e}"[:300]
             if not flag:
+                for fp in fprogs:
+                    try:
+                        import jax.numpy as jnp
+                        fp.jax = np.asarray(fp.fn(*[jnp.asarray(c_) for c_ in fp.cols]))
+                    except Exception as e:  # noqa: BLE001
+                        fp.err = f"eager JAX: {type(e).__name__}: {e}"[:300]
                 for dp in dprogs:
                     try:
                         import jax.numpy as jnp
@@ -2596,6 +2819,15 @@ def run(ctx):
                 except Exception as e:  # noqa: BLE001
                     pg.err = f"export: {type(e).__name__}: {e}"[:300]
             if not flag:
+                for fp in fprogs:
+                    if fp.err:
+                        continue
+                    try:
+                        import jax as _jax
+                        from jax2onnx import to_onnx as _to_onnx
+                        fp.model = _to_onnx(fp.fn, [_jax.ShapeDtypeStruct(c_.shape, c_.dtype) for c_ in fp.cols])
+                    except Exception as e:  # noqa: BLE001
+                        fp.err = f"export: {type(e).__name__}: {e}"[:300]
                 for dp in dprogs:
                     if dp.err:
                         continue
@@ -2788,6 +3020,9 @@ def run(ctx):
     xrun = [xp for xp in xprogs if xp.model is not None and not xp.type_errors]
     for xp, r_ in zip(xrun, ort_child(ctx, [(xp.model.SerializeToString(), [xp.x], False) for xp in xrun], tag="ortx") if xrun else []):
         xp.ort = r_
+    frun = [fp for fp in fprogs if fp.model is not None]
+    for fp, r_ in zip(frun, ort_child(ctx, [(fp.model.SerializeToString(), list(fp.cols), False) for fp in frun], tag="ortfloat") if frun else []):
+        fp.ort = r_
     drun = [dp for dp in dprogs if dp.model is not None and dp.jax is not None]
     for dp, r_ in zip(drun, ort_child(ctx, [(dp.model.SerializeToString(), [dp.x, dp.starts], True) for dp in drun], tag="ortdyn") if drun else []):
         dp.ort = r_
@@ -3057,6 +3292,8 @@ def run(ctx):
                          "c01k_traced_program_equations": sorted({k_.split(":")[0].split("->")[0].split("@")[0] for sp in sprogs for k_ in (sp.keys or [])})})
     explored_judge(ctx, xprogs)
     dyn_judge(ctx, dprogs, results)
+    float_d1(ctx)
+    float_judge(ctx, fprogs)
     kernels_seen = sorted({v.k.name for v in live})
     ctx.coverage.update({
         "c01k_kernels": len(kernels_seen), "c01k_kernel_list": kernels_seen,
